@@ -10,6 +10,21 @@ Proof. reflexivity. Qed.
 Lemma utf8_label_literals_are : utf8_label_literals = [bs "utf-8"; bs "utf8"].
 Proof. reflexivity. Qed.
 
+(* the default selection and the utf-8 test, spelled out against the generated tables (a changed
+   table in decode.go / transport.go breaks these) *)
+Lemma default_selection ct :
+  selected SelDefault ct = true <->
+  exists f, In f [bs "text"; bs "json"; bs "xml"; bs "html"; bs "java"] /\ contains_sub f ct = true.
+Proof.
+  unfold selected, contains_any. rewrite text_content_types_are. apply existsb_exists.
+Qed.
+
+Lemma is_utf8_label_spec v :
+  is_utf8_label v = contains_sub (bs "utf-8") v || contains_sub (bs "utf8") v.
+Proof.
+  unfold is_utf8_label. rewrite utf8_label_literals_are. cbn [existsb]. rewrite orb_false_r. reflexivity.
+Qed.
+
 Lemma is_empty_true (b : bytes) : is_empty b = true -> b = [].
 Proof. destruct b; simpl; congruence. Qed.
 
